@@ -110,8 +110,8 @@ class Check(object):
                 node = getattr(e, "node", None)
                 import ast as _ast
                 cls = getattr(getattr(e.exc, "cls", None), "name", "")
-                definite = cls in ("builtins.TypeError", "builtins.AttributeError", "builtins.NameError", "builtins.ZeroDivisionError") \
-                    and not isinstance(node, _ast.Raise)
+                definite = (cls in ("builtins.TypeError", "builtins.AttributeError", "builtins.NameError", "builtins.ZeroDivisionError")
+                            and not isinstance(node, _ast.Raise)) or cls == "verif.FloatControlledOutputLoop"
                 if definite:
                     # not a 'raise' statement of the package but Python itself refusing an operation (wrong arity, a missing
                     # attribute on a concrete object, float() of an object): on the well-formed abstract input of this check the
@@ -119,8 +119,15 @@ class Check(object):
                     rule = "%s.X" % self.pid
                     if rule not in self.rule_desc:
                         self.rule(rule, "the analysed entry point does not fail with a Python TypeError/AttributeError/NameError/ZeroDivisionError (exactly zero divisor) "
-                                        "on well-formed input", 0)
+                                        "on well-formed input, and no output loop's trip count hangs on a floating-point comparison", 0)
                     what = getattr(e.exc, "args", None)
+                    if cls == "verif.FloatControlledOutputLoop":
+                        self.ob(rule, "%s: the number of records written is fixed by integer loop bounds, not by a floating-point comparison" % label,
+                                False, site=getattr(e, "where", None) or ("line %s" % getattr(node, "lineno", "?")),
+                                found=what[0].v if what and hasattr(what[0], "v") else what,
+                                expect="an integer-controlled loop (rounding must not add or drop a record)",
+                                key="%s|%s|float-controlled-loop" % (rule, label))
+                        return None
                     self.ob(rule, "%s: runs without a Python %s" % (label, cls.split(".")[-1]), False,
                             site=getattr(e, "where", None) or ("line %s" % getattr(node, "lineno", "?")),
                             found="%s: %s" % (cls.split(".")[-1], what[0].v if what and hasattr(what[0], "v") else what),
@@ -312,7 +319,7 @@ def run_check(pid, fn, level, argv):
         tier = "quick"
     chk = Check(pid, tier, level, replay)
     try:
-        fn(chk)
+        chk.attempt("run", lambda: fn(chk))      # a signal escaping the check's own top level is classified like any other
     except AnalysisError as e:
         chk.error(str(e))
     except Exception as e:  # checker crash: never a VIOLATION
